@@ -134,6 +134,8 @@ def mon_c02(h, obs):
     acc_rcpt = {}
     fee_failed = set()   # ids of requests that were processed and then failed to pay the fee
     grouped = set()      # pairs that carried a one-to-many child: an accepted child receipt need not finalise anything
+    hub_req = {}         # (full from, full to) across two BitXHubs -> indices of accepted requests
+    hubworld = any(op.startswith("world") and " hub=1" in op for op in h.ops[:1])
     for st in parse_trace(h, obs):
         if st[0] == "block":
             b = st[1]
@@ -153,6 +155,21 @@ def mon_c02(h, obs):
                     hits.append(Hit("C02/delivery-entry-without-accepted-transaction",
                                     f"the delivery set of block {b.h} lists transaction index {idx} for {chains}: {what} ({len(b.txs)} transactions in the block)", detail=b.raw))
             for i, (tx, rc) in enumerate(zip(b.txs, b.rcs)):
+                if tx.kind == "ibtp" and tx.id is None and getattr(tx, "hubid", None) and hubworld and tx.typ == "req" and rc.ok:
+                    # a pair across two BitXHubs (world option hub=1): an accepted request that is not the other hub's notice for a request
+                    # accepted before is a NEW request of the pair: it carries the next index and is counted
+                    fl = lambda x: x if x.count(":") == 2 else "1356:" + x
+                    hp = (fl(tx.frm), fl(tx.to))
+                    if hp[1].startswith("1356:") and not ORDERED.get(hp[1][5:], True):
+                        continue      # an unordered local destination: its requests are not index-checked
+                    lst = hub_req.setdefault(hp, [])
+                    if tx.index in lst and tx.ext in ("x:bf", "x:br"):
+                        pass      # the notice: it ends the transaction, it is no request
+                    else:
+                        if tx.index != len(lst) + 1:
+                            hits.append(Hit("C02/request-index-order/interhub",
+                                            f"request {tx.hubid} accepted but the pair had accepted {lst} (expected index {len(lst)+1})", detail=b.op))
+                        lst.append(tx.index)
                 if tx.kind != "ibtp" or tx.id is None:
                     continue
                 pair = (tx.frm, tx.to)
@@ -199,9 +216,16 @@ def mon_c02(h, obs):
                                         f"rejected receipt for {tx.id} is announced in the delivery set of block {b.h}", detail=b.raw))
         elif st[0] == "q" and st[1] == "ic" and st[3] != "none" and not st[3].startswith("bad"):
             svc = st[2]
-            if svc.count(":") == 2 and not svc.startswith("1356:"):
-                continue           # the record of a service on another BitXHub: those pairs are followed by the protocol monitors (C04 / C06) only
             m = parse_counter_map(st[3])
+            if hubworld:
+                # pairs across two BitXHubs: the request counter of the source service is the number of requests accepted for the pair
+                fsvc = svc if svc.count(":") == 2 else "1356:" + svc
+                for (f, t), lst in hub_req.items():
+                    if f == fsvc and m.get("ic", {}).get(t, 0) != len(lst):
+                        hits.append(Hit("C02/interchain-counter-mismatch/interhub",
+                                        f"GetInterchain({svc}).InterchainCounter[{t}] = {m.get('ic', {}).get(t, 0)} but the requests accepted for the pair are {lst}", detail=st[3]))
+            if svc.count(":") == 2 and not svc.startswith("1356:"):
+                continue           # the record of a service on another BitXHub: the local rules below do not apply
             for (f, t), lst in acc_req.items():
                 if not ORDERED.get(t, True):
                     continue
